@@ -321,3 +321,99 @@ func typeIs[T any](x any, _ T) bool { return true }
 //@   ensures#empty result.chunkSize == 0 && result.maxTSNOffset >= maxTSNOffset && result.maxTSNOffset <= 40000+63
 //@   tags C05 C11 C16
 //@   safety C03
+
+// ---- C12/C03: chunk header and DATA / I-DATA codec ----
+
+func sameSlice[T any](a, b []T) bool { return true }
+
+//@ func chunkHeader.unmarshal
+//@   loop 1 invariant#bound i >= 0 && i <= lengthAfterValue
+//@   ensures#fields result == nil ==> len(raw) >= 4 && 4+len(c.raw) <= len(raw) && uint8(c.typ) == raw[0] && c.flags == raw[1] &&
+//@      len(c.raw) == int(specBE16(raw, 2)-4)
+//@   ensures#length-field len(raw) <= 65535 && result == nil ==> int(specBE16(raw, 2)) >= 4 && int(specBE16(raw, 2)) <= len(raw)
+//@   ensures#value-is-own-bytes result == nil ==> sameSlice(c.raw, raw[4:4+int(specBE16(raw, 2)-4)])
+//@   ensures#accepts-exact len(raw) >= 4 && int(specBE16(raw, 2)) >= 4 && int(specBE16(raw, 2)) == len(raw) ==> result == nil
+//@   modifies c.typ, c.flags, c.raw
+//@   tags C12 C03
+//@   safety C03
+
+//@ func chunkHeader.marshal
+//@   requires#len len(c.raw) <= 65531
+//@   ensures#wire result1 == nil && len(result0) == 4+len(c.raw) && result0[0] == uint8(c.typ) && result0[1] == c.flags &&
+//@      specBE16(result0, 2) == uint16(len(c.raw)+4)
+//@   ensures#value forall i int :: 0 <= i && i < len(c.raw) ==> result0[4+i] == c.raw[i]
+//@   ensures#fresh isNew(result0)
+//@   modifies nothing
+//@   tags C12
+//@   safety C03
+
+//@ func chunkHeader.valueLength
+//@   ensures#len result == len(c.raw)
+//@   modifies nothing
+//@   tags C12 C03
+
+func specDataFlags(p *chunkPayloadData) uint8 {
+	f := uint8(0)
+	if p.endingFragment {
+		f |= 1
+	}
+	if p.beginningFragment {
+		f |= 2
+	}
+	if p.unordered {
+		f |= 4
+	}
+	if p.immediateSack {
+		f |= 8
+	}
+
+	return f
+}
+
+//@ func chunkPayloadData.unmarshal
+//@   ensures#kind result == nil ==> len(raw) >= 4 && (raw[0] == 0 || raw[0] == 64) && p.iData == (raw[0] == 64)
+//@   ensures#flags result == nil ==> specDataFlags(p) == raw[1]&15
+//@   ensures#accepts-data len(raw) >= 16 && raw[0] == 0 && int(specBE16(raw, 2)) == len(raw) ==> result == nil
+//@   ensures#accepts-idata len(raw) >= 20 && raw[0] == 64 && int(specBE16(raw, 2)) == len(raw) ==> result == nil
+//@   ensures#data result == nil && raw[0] == 0 ==> int(specBE16(raw, 2)-4) >= 12 && 4+int(specBE16(raw, 2)-4) <= len(raw) &&
+//@      p.tsn == specBE32(raw, 4) && p.streamIdentifier == specBE16(raw, 8) && p.streamSequenceNumber == specBE16(raw, 10) &&
+//@      uint32(p.payloadType) == specBE32(raw, 12) && sameSlice(p.userData, raw[16:4+int(specBE16(raw, 2)-4)])
+//@   ensures#idata result == nil && raw[0] == 64 ==> int(specBE16(raw, 2)-4) >= 16 && 4+int(specBE16(raw, 2)-4) <= len(raw) &&
+//@      p.tsn == specBE32(raw, 4) && p.streamIdentifier == specBE16(raw, 8) && p.messageIdentifier == specBE32(raw, 12) &&
+//@      sameSlice(p.userData, raw[20:4+int(specBE16(raw, 2)-4)])
+//@   ensures#idata-ppid-or-fsn result == nil && raw[0] == 64 ==>
+//@      (p.beginningFragment ==> uint32(p.payloadType) == specBE32(raw, 16) && p.fragmentSequenceNumber == 0) &&
+//@      (!p.beginningFragment ==> p.fragmentSequenceNumber == specBE32(raw, 16) && p.payloadType == 0)
+//@   modifies p.*
+//@   tags C12 C03
+//@   safety C03
+
+//@ func chunkPayloadData.marshal
+//@   requires#len len(p.userData) <= 65515
+//@   ensures#ok result1 == nil && isNew(result0)
+//@   ensures#data !old(p.isIData()) ==> len(result0) == 16+len(p.userData) && result0[0] == 0 && result0[1] == specDataFlags(p) &&
+//@      specBE16(result0, 2) == uint16(16+len(p.userData)) && specBE32(result0, 4) == p.tsn && specBE16(result0, 8) == p.streamIdentifier &&
+//@      specBE16(result0, 10) == p.streamSequenceNumber && specBE32(result0, 12) == uint32(p.payloadType)
+//@   ensures#data-bytes !old(p.isIData()) ==> forall i int :: 0 <= i && i < len(p.userData) ==> result0[16+i] == p.userData[i]
+//@   ensures#idata old(p.isIData()) ==> len(result0) == 20+len(p.userData) && result0[0] == 64 && result0[1] == specDataFlags(p) &&
+//@      specBE16(result0, 2) == uint16(20+len(p.userData))
+//@   ensures#idata-fields old(p.isIData()) ==> len(result0) >= 20 && specBE32(result0, 4) == p.tsn && specBE16(result0, 8) == p.streamIdentifier &&
+//@      specBE16(result0, 10) == 0 && specBE32(result0, 12) == p.messageIdentifier
+//@   ensures#idata-ppid-or-fsn old(p.isIData()) ==> len(result0) >= 20 && specBE32(result0, 16) == ite(p.beginningFragment, uint32(p.payloadType), p.fragmentSequenceNumber)
+//@   ensures#idata-bytes old(p.isIData()) ==> forall i int :: 0 <= i && i < len(p.userData) ==> result0[20+i] == p.userData[i]
+//@   modifies p.chunkHeader.typ, p.chunkHeader.flags, p.chunkHeader.raw
+//@   tags C12
+//@   safety C03
+
+//@ func verifLemmaRoundTripDATA
+//@   requires#size p != nil && len(p.userData) <= 65515
+//@   ensures#decodes err == nil
+//@   ensures#fields q.iData == old(p.isIData()) && q.tsn == p.tsn && q.streamIdentifier == p.streamIdentifier &&
+//@      q.beginningFragment == p.beginningFragment && q.endingFragment == p.endingFragment && q.unordered == p.unordered && q.immediateSack == p.immediateSack
+//@   ensures#data-fields !old(p.isIData()) ==> q.streamSequenceNumber == p.streamSequenceNumber && q.payloadType == p.payloadType
+//@   ensures#idata-fields old(p.isIData()) ==> q.messageIdentifier == p.messageIdentifier &&
+//@      (p.beginningFragment ==> q.payloadType == p.payloadType && q.fragmentSequenceNumber == 0) &&
+//@      (!p.beginningFragment ==> q.fragmentSequenceNumber == p.fragmentSequenceNumber)
+//@   ensures#payload-len len(q.userData) == len(p.userData)
+//@   ensures#payload forall i int :: 0 <= i && i < len(p.userData) ==> q.userData[i] == p.userData[i]
+//@   tags C12 C01
